@@ -1958,6 +1958,9 @@ func (e *Engine) runHooks(st *State, in ssa.Instruction, t callTarget, after boo
 					}()
 					v := env.eval(h.Cl.Expr)
 					st.ghost[h.Var] = v
+					if st.dry != nil {
+						st.dry.ghosts[h.Var] = true
+					}
 				}()
 			}
 		}
